@@ -338,13 +338,19 @@ Section Scope.
     - apply WF_elem; auto.
       + destruct mn as [f1|], mx as [f2|]; cbn [opt_ok app] in *; attrs; now apply f32_chars_ok.
       + destruct mn, mx; reflexivity.
-      + constructor; [|constructor]. split; [|reflexivity]. cbn [wf_node]. destruct mn as [f1|]; [|reflexivity].
-        cbn [opt_ok] in *. apply plain_text_ok. now apply plain_text_forall.
+      + constructor; [|constructor]. split; [|reflexivity]. cbn [wf_node].
+        destruct mn as [f1|], mx as [f2|]; cbn [sample32 sample64 opt_ok] in *; try reflexivity;
+          try (apply plain_text_ok; now apply plain_text_forall);
+          first [destruct (below_zero32 f2) | destruct (below_zero64 f2)]; try reflexivity;
+          apply plain_text_ok; now apply plain_text_forall.
     - apply WF_elem; auto.
       + destruct mn as [f1|], mx as [f2|]; cbn [opt_ok app] in *; attrs; now apply f64_chars_ok.
       + destruct mn, mx; reflexivity.
-      + constructor; [|constructor]. split; [|reflexivity]. cbn [wf_node]. destruct mn as [f1|]; [|reflexivity].
-        cbn [opt_ok] in *. apply plain_text_ok. now apply plain_text_forall.
+      + constructor; [|constructor]. split; [|reflexivity]. cbn [wf_node].
+        destruct mn as [f1|], mx as [f2|]; cbn [sample32 sample64 opt_ok] in *; try reflexivity;
+          try (apply plain_text_ok; now apply plain_text_forall);
+          first [destruct (below_zero32 f2) | destruct (below_zero64 f2)]; try reflexivity;
+          apply plain_text_ok; now apply plain_text_forall.
     - apply WF_elem; auto.
       + attrs; first [apply dec_z_chars_ok | now apply f64_chars_ok].
       + constructor; [|constructor]. split; [apply dec_z_text_ok|reflexivity].
